@@ -303,7 +303,7 @@ def build_model_runner():
     out = os.path.join(BUILD, "model_runner")
     with Lock("extract"):
         proj = set(coq_project_files())
-        want = [f for f in ("Base/Bytes.v", "Base/Tok.v", "Skel/Compose.v", "Norm/Norm.v", "Parser/Pre.v", "Facts/ParserConsts.v", "Inline/Css.v", "Inline/Html.v",
+        want = [f for f in ("Base/Bytes.v", "Base/Tok.v", "Skel/Compose.v", "Norm/Norm.v", "Inline/Css.v", "Inline/Tag.v", "Parser/Pre.v", "Facts/ParserConsts.v", "Inline/Css.v", "Inline/Html.v",
                             "Norm/Norm.v", "Width/Model.v") if f in proj]
         ok, mlog, dt = coq_make([f + "o" for f in want])
         if not ok:
@@ -340,7 +340,7 @@ def model_run(runner, requests, procs=16, timeout=900):
                 if requests[i][0] == "normdump":
                     out[i] = line.split("\x01")
                     continue
-                if requests[i][0] in ("lex", "check", "merge", "equiv"):
+                if requests[i][0] in ("lex", "check", "merge", "equiv", "inlinediff", "inlinerelaxed", "cssrules"):
                     out[i] = line
                     continue
                 if line and line not in ("NONE", "BAD"):
